@@ -631,6 +631,18 @@ func TestVerifC13Malformed(t *testing.T) {
 			"details-not-base64": mut(func(kv [][2]string) [][2]string { return set(kv, "grpc-status-details-bin", "!!!") }),
 			"details-not-proto":  mut(func(kv [][2]string) [][2]string { return set(kv, "grpc-status-details-bin", vfRawB64([]byte{0xff, 0xff, 0xff})) }),
 		}
+		hasKey := func(kv [][2]string, k string) bool {
+			for _, p := range kv {
+				if p[0] == k {
+					return true
+				}
+			}
+			return false
+		}
+		if e.Message != "" && hasKey(good, "grpc-message") && hasKey(good, "grpc-status-details-bin") {
+			// a grpc-message that is present but empty disagrees with a details message that is not
+			statusCases["details-message-vs-empty-grpc-message"] = mut(func(kv [][2]string) [][2]string { return set(kv, "grpc-message", "") })
+		}
 		if strings.HasSuffix(padded, "=") {
 			statusCases["details-padded"] = append(del(append([][2]string(nil), good...), "grpc-status-details-bin"), [2]string{"grpc-status-details-bin", padded})
 		}
